@@ -149,6 +149,11 @@ func (g *Graph) InEdges(v Vertex) []Vertex {
 // this graph will impact the original Graph. You must call Copy on the
 // result if you want to have a copy.
 func (g *Graph) Reverse() *Graph {
+	// Initialize first so that the view shares real (non-nil) maps; a
+	// reversed view of a zero-value Graph would otherwise never observe
+	// (or be observed by) later changes.
+	g.init()
+
 	return &Graph{
 		adjacencyOut: g.adjacencyIn,
 		adjacencyIn:  g.adjacencyOut,
